@@ -259,7 +259,7 @@ def r5_visibility_arguments(chk, prog, rule='R5'):
                               and (x.get('callee') or '').split('::')[-1] in want.values()})
                 chk.check(got == [getter], rule, f.name, 'doPrint() is asked with the current "%s" setting' % getter,
                           f.loc(c), 'argument %d of the call is taken from %s' % (i + 1, got or 'something else'))
-    chk.require(n >= 9, 'doPrint() arguments checked: %d' % n)
+    chk.require(n >= 3, 'doPrint() arguments checked: %d' % n)
     return n
 
 
@@ -334,7 +334,7 @@ def run(chk):
     r2(chk, prog)
     r3(chk, prog)
     r4_one_settings_object(chk, prog)
-    chk.rule('R5', 'every visibility decision uses the current settings (column-width pass == printing pass)', 9)
+    chk.rule('R5', 'every visibility decision uses the current settings (column-width pass == printing pass)', 3)
     r5_visibility_arguments(chk, prog)
     # R6: the description text is formatted by TextBlock: no word of it is lost (C17-R1, same unit)
     from . import c17
